@@ -990,7 +990,7 @@ func TestRingManyPushes(t *testing.T) {
 // each traversal yields, min(pushes, capacity).
 type VastCase struct {
 	Size   uint64 `json:"size"`
-	Pushes []int  `json:"pushes"` // pushes before each observation
+	Pushes []int  `json:"pushes"` // pushes before each observation; -1: Clear
 }
 
 func checkVast(c VastCase) error {
@@ -1001,6 +1001,11 @@ func checkVast(c VastCase) error {
 	rb := container.NewRingBuffer[struct{}](uint(c.Size))
 	var pushed uint64
 	for step, k := range c.Pushes {
+		if k < 0 {
+			// Clear: "a cleared buffer is indistinguishable from a new one".
+			rb.Clear()
+			pushed, k = 0, 0
+		}
 		for i := 0; i < k; i++ {
 			rb.Push(struct{}{})
 		}
@@ -1029,13 +1034,13 @@ func checkVast(c VastCase) error {
 var vastProp = vp.Register(vp.Prop[VastCase]{
 	Kind: "c11.ring-vast", Base: 1500,
 	Gen: func(t *rapid.T) VastCase {
-		base := rapid.SampledFrom([]uint64{1 << 31, 1 << 32, 1 << 32, 1 << 33, 3 << 31, 1 << 40, 1<<63 - 1, 1<<31 - 1}).Draw(t, "base")
+		base := rapid.SampledFrom([]uint64{1 << 31, 1 << 32, 1 << 32, 1 << 33, 3 << 31, 1 << 40, 1<<63 - 1, 1<<31 - 1, 1 << 16, 1 << 20, 1 << 24}).Draw(t, "base")
 		d := rapid.SampledFrom([]int64{0, 0, 1, 2, 3, 5, 7, 64, -1, -2}).Draw(t, "d")
 		size := uint64(int64(base) + d)
 		if base == 1<<63-1 || base == 1<<31-1 {
 			size = base - uint64(max(d, -d))
 		}
-		return VastCase{Size: size, Pushes: rapid.SliceOfN(rapid.IntRange(0, 9), 1, 12).Draw(t, "pushes")}
+		return VastCase{Size: size, Pushes: rapid.SliceOfN(rapid.IntRange(-1, 9), 1, 12).Draw(t, "pushes")}
 	},
 	Check: checkVast,
 })
